@@ -57,6 +57,9 @@ E == Trace[l]
 IsEv(name) == l <= Len(Trace) /\ Trace[l].ev = name
 Cfg(e) == IF e = 0 THEN cfg.A ELSE cfg.B
 UseIL == cfg.A.il /\ cfg.B.il
+\* e told its peer that zero checksums are acceptable (with the DTLS method): it enabled them and its parameter was not
+\* rewritten in transit to name another method
+ZcAnn(e) == Cfg(e).zc /\ ~("zcforeign" \in DOMAIN Cfg(e) /\ Cfg(e).zcforeign)
 Get(f, k, d) == IF k \in DOMAIN f THEN f[k] ELSE d
 Upd(f, k, v) == (k :> v) @@ f
 V(mon, w) == [mon |-> mon, line |-> l, scen |-> scen, w |-> w]
@@ -74,6 +77,7 @@ SeqSet(s) == {s[i] : i \in DOMAIN s}
 \*       miss     - ep -> miss indications (RFC 4960 7.2.4) of ep's outstanding chunks recomputed from the SACKs handed to
 \*                  it: s under the strictest reading (HTNA = highest TSN newly acknowledged), l under the loosest (highest
 \*                  TSN the SACK acknowledges); ok = the recomputation saw every outstanding chunk so far
+\*       shutTx   - ep -> virtual time of the last SHUTDOWN / SHUTDOWN-ACK chunk ep put on the wire, -1 if none
 \*       lossSig  - the chunks whose third miss indication was caused by the packet handed over in line `line`
 \*       wfail    - <<ep,sid>> of streams on which a write failed since ep's previous snapshot (the bytes of the
 \*                  rejected write were visible in the buffered amount only while the call was blocked)
@@ -81,7 +85,7 @@ MiscInit == [probe |-> [e \in EP |-> -1], thr |-> <<>>, cbs |-> <<>>, ackDue |->
              incn |-> <<>>, fwdMax |-> [e \in EP |-> -1],
              nack |-> [line |-> 0, to |-> -1, set |-> {}, hb |-> FALSE], teardown |-> FALSE, calls |-> <<>>, inj |-> <<>>, dead |-> [e \in EP |-> FALSE], abortRx |-> [e \in EP |-> FALSE], fuzzed |-> FALSE, abortSeen |-> [e \in EP |-> FALSE], shutAt |-> <<>>, shutRet |-> <<>>, closedInc |-> <<>>, wdl |-> <<>>, rdl |-> <<>>, reqs |-> <<>>, gen |-> <<>>, performed |-> {}, genAtRx |-> <<>>, rsGen |-> <<>>,
              pendReads |-> <<>>, hbCalls |-> <<>>, hbSeen |-> {}, txn |-> [e \in EP |-> 0], wfail |-> {}, rdBase |-> <<>>, rdOut |-> <<>>, bwOwed |-> {}, forged |-> FALSE,
-             miss |-> [e \in EP |-> [s |-> <<>>, l |-> <<>>, ok |-> TRUE]], lossSig |-> [line |-> 0, to |-> -1, set |-> {}],
+             shutTx |-> [e \in EP |-> -1], miss |-> [e \in EP |-> [s |-> <<>>, l |-> <<>>, ok |-> TRUE]], lossSig |-> [line |-> 0, to |-> -1, set |-> {}],
              t3h |-> [e \in EP |-> [t |-> -1, iv |-> 0, cum |-> -1, n |-> -1]]]
 
 InitVars ==
@@ -260,7 +264,7 @@ TxViol(p) ==
   IN
     (IF p.wf # <<>> THEN {V("C12_WellFormed", <<e, p.pid, p.wf>>)} ELSE {})
     \cup (IF p.ck = "bad" THEN {V("C13_EmitCorrect", <<e, p.pid>>)} ELSE {})
-    \cup (IF p.ck = "zero" /\ (mandatory \/ ~Cfg(Peer(e)).zc) THEN {V("C13_EmitZeroOnlyNegotiated", <<e, p.pid, p.kinds>>)} ELSE {})
+    \cup (IF p.ck = "zero" /\ (mandatory \/ ~ZcAnn(Peer(e))) THEN {V("C13_EmitZeroOnlyNegotiated", <<e, p.pid, p.kinds>>)} ELSE {})
     \cup (IF HasKind(p, DataKinds) /\ p.len > Cfg(e).mtu THEN {V("C10_Mtu", <<e, p.pid, p.len>>)} ELSE {})
     \cup (IF HasKind(p, {"init"}) /\ (p.n # 1 \/ p.vtag # "zero") THEN {V("C12_InitAlone", <<e, p.pid>>)} ELSE {})
     \cup (IF ~p.ports THEN {V("C12_Ports", <<e, p.pid>>)} ELSE {})
@@ -435,7 +439,7 @@ TrChunkShutdown ==
          unsound == IF E.cum - skipTo[e] > 50000 THEN {E.cum} ELSE {t \in (MaxI(skipTo[e], -1) + 1)..E.cum : t \notin rcvd[e]}
      IN viol' = viol \cup (IF unsound # {} THEN {V("C08_ShutdownAckSound", <<e, E.cum, Min(unsound)>>)} ELSE {})
   \* a SHUTDOWN carries the cumulative TSN ack: it discharges the acknowledgement the endpoint owed
-  /\ misc' = [misc EXCEPT !.ackDue[E.ep] = -1]
+  /\ misc' = [misc EXCEPT !.ackDue[E.ep] = -1, !.shutTx[E.ep] = E.t]
   /\ l' = l + 1
   /\ UNCHANGED <<scen, cfg, msg, order, reads, ch, hi, rcvd, skipTo, ackCum, ackGap, arw, outst, lastSack, sackEv, sn, step, newData, rs, acc>>
 
@@ -486,8 +490,9 @@ TrChunkOther ==
   \* the T1 timers were stopped when the handshake completed, by whichever packet completed it
   /\ viol' = viol \cup (IF ~pkt[E.pid].forged /\ E.k \in {"init", "cookieecho"} /\ sn[E.ep] # NoSnap /\ sn[E.ep].st = "established"
                         THEN {V("C04_NoHandshakeChunkWhenEstablished", <<E.ep, E.k, E.t>>)} ELSE {})
+  /\ misc' = IF ~pkt[E.pid].forged /\ "bad" \notin DOMAIN E /\ E.k = "shutdownack" THEN [misc EXCEPT !.shutTx[E.ep] = E.t] ELSE misc
   /\ l' = l + 1
-  /\ UNCHANGED <<scen, cfg, msg, order, reads, ch, hi, rcvd, skipTo, ackCum, ackGap, arw, outst, lastSack, sackEv, sn, step, newData, misc, rs, acc>>
+  /\ UNCHANGED <<scen, cfg, msg, order, reads, ch, hi, rcvd, skipTo, ackCum, ackGap, arw, outst, lastSack, sackEv, sn, step, newData, rs, acc>>
 
 (***************************************************************************)
 (* Driver: a packet is handed to its destination                           *)
@@ -735,8 +740,8 @@ SnapViol(s, R) ==
     \* C04: negotiated features of an established endpoint agree with what both sides enabled, and stay put
     \cup (IF s.st = "established" /\ (s.useil # UseIL \/ s.useifwd # UseIL \/ (s.usefwd # ~UseIL))
           THEN {V("C04_Agreement", <<e, s.useil, s.usefwd, s.useifwd, cfg.A.il, cfg.B.il>>)} ELSE {})
-    \cup (IF s.sendzc /\ ~Cfg(Peer(e)).zc THEN {V("C04_ZeroChecksumAgreement", <<e, s.sendzc, Cfg(Peer(e)).zc>>)} ELSE {})
-    \cup (IF s.st = "established" /\ s.sendzc # Cfg(Peer(e)).zc THEN {V("C04_ZeroChecksumUsed", <<e, s.sendzc, Cfg(Peer(e)).zc>>)} ELSE {})
+    \cup (IF s.sendzc /\ ~ZcAnn(Peer(e)) THEN {V("C04_ZeroChecksumAgreement", <<e, s.sendzc, ZcAnn(Peer(e))>>)} ELSE {})
+    \cup (IF s.st = "established" /\ s.sendzc # ZcAnn(Peer(e)) THEN {V("C04_ZeroChecksumUsed", <<e, s.sendzc, ZcAnn(Peer(e))>>)} ELSE {})
     \cup (IF s.recvzc # Cfg(e).zc THEN {V("C04_ZeroChecksumAccept", <<e, s.recvzc>>)} ELSE {})
     \cup (IF prev # NoSnap /\ prev.st = "established" /\ s.st \notin {"established"} /\ ~misc.teardown
           THEN {V("C04_Stable", <<e, prev.st, s.st, step.ev>>)} ELSE {})
@@ -939,9 +944,15 @@ TrCb ==
 \* C18: a read that is blocked when its stream's read deadline passes returns at the deadline
 ReadOverdue(t) == {V("C18_ReadDeadlineReturns", <<k[1], k[2], misc.rdl[k], t>>) :
                      k \in {q \in DOMAIN misc.rdOut : misc.rdOut[q] > 0 /\ Get(misc.rdl, q, 0) > 0 /\ t > misc.rdl[q]}}
+\* C19: "data and shutdown packets are retransmitted for as long as the association lives": an endpoint that sits in
+\* SHUTDOWN-SENT / SHUTDOWN-ACK-SENT has put its SHUTDOWN / SHUTDOWN-ACK on the wire within the last RTO.max (T2-shutdown
+\* backs off up to RTO.max and has no retry limit); 1 s of slack for the step in which the timer fires
+ShutQuiet(t) == {V("C19_ShutdownRetransmitted", <<e, sn[e].st, misc.shutTx[e], t>>) :
+                   e \in {x \in EP : sn[x] # NoSnap /\ sn[x].st \in {"shutdownSent", "shutdownAckSent"} /\ ~misc.dead[x] /\ misc.shutTx[x] >= 0
+                                    /\ t - misc.shutTx[x] > (IF Cfg(x).rtomax > 0 THEN MaxI(Cfg(x).rtomax, 1000) ELSE 60000) + 1000}}
 TrTick ==
   /\ IsEv("tick")
-  /\ viol' = viol \cup AckLate(E.t) \cup ReadOverdue(E.t)
+  /\ viol' = viol \cup AckLate(E.t) \cup ReadOverdue(E.t) \cup ShutQuiet(E.t)
   /\ step' = E
   /\ l' = l + 1
   /\ UNCHANGED <<scen, cfg, msg, order, reads, ch, hi, pkt, rcvd, skipTo, ackCum, ackGap, arw, outst, lastSack, sackEv, sn, newData, misc, rs, acc>>
